@@ -42,7 +42,7 @@ func cfgQuiet(path string) gameboy.Config {
 }
 
 func run(c *rig.Ctx) {
-	c.Require("twin_frames", "progress_cases", "timer_irq_cases", "stop_close_cases", "stop_cancel_in_poll_cases", "stop_cancel_other_goroutine_cases", "stop_cases_lcd_off", "timer_overflows_in_last_cycles_of_frame", "timer_irq_phase_cases_with_overflow", "stop_cases_deadline_context", "stop_cases_parent_context")
+	c.Require("twin_frames", "progress_cases", "timer_irq_cases", "stop_close_cases", "stop_cancel_in_poll_cases", "stop_cancel_other_goroutine_cases", "stop_cases_lcd_off", "timer_overflows_in_last_cycles_of_frame", "timer_irq_phase_cases_with_overflow", "stop_cases_deadline_context", "stop_cases_parent_context", "stop_cases_context_over_before_run")
 
 	// A1: twin differential
 	c.Part("twin", c.N(60, 1200), func(i int64, r *rig.Rng) {
@@ -336,6 +336,14 @@ func run(c *rig.Ctx) {
 		}
 		wd := &byteWatchdog{requested: &cancelled, closeByByte: mode == 0 && lcdOff, win: glfw.XCurrent, polls: &glfw.PollCalls, n: int64(n), perFrame: perFrame}
 		gb := gameboy.New(gameboy.Config{RomFilename: path, DisableAudioOutput: !audio, SerialWriter: wd})
+		// the context may be over before Run is even called: Run must still return at once
+		// (at most one frame) and release what New acquired
+		pre := mode == 1 && (i/3)%4 == 3
+		if pre {
+			cancel()
+			atomic.StoreInt32(&cancelled, 1)
+			c.Count("stop_cases_context_over_before_run", 1)
+		}
 		var runPanic any
 		func() {
 			defer func() { runPanic = recover() }()
@@ -368,6 +376,9 @@ func run(c *rig.Ctx) {
 			}
 			c.Count("stop_close_cases", 1)
 		case 1:
+			if pre && polls > 1 {
+				c.Violate("run-continues-after-cancel", fmt.Sprintf("%s: the context was over before Run was called, yet %d frames were rendered", descr, polls), nil)
+			}
 			if polls > int64(n)+1 {
 				c.Violate("run-continues-after-cancel", fmt.Sprintf("%s: %d frames were rendered, the context was cancelled during frame %d (at most one further frame allowed)", descr, polls, n), nil)
 			}
